@@ -83,6 +83,9 @@ pub struct Pair {
     pub sources: Vec<IntSource>,
     /// additional requests visible at the next poll (devices modelled by the caller, e.g. the timer)
     pub extra: Vec<(u8, u8)>,
+    /// "another thread" holds the keyboard / display buffer lock during the next step (the real RwLock write guard is taken)
+    pub hold_kb: bool,
+    pub hold_disp: bool,
 }
 
 pub fn build(m: &Machine) -> Pair {
@@ -108,7 +111,7 @@ pub fn build(m: &Machine) -> Pair {
     sim.write_mem(SSP_PORT, Word::new_init(m.saved_sp), omni).expect("set saved SP"); rf.saved_sp = m.saved_sp; rf.set_mem(SSP_PORT, m.saved_sp);
     if m.kb_ie && m.kb.is_some() { sim.write_mem(KBSR, Word::new_init(0x4000), omni).expect("set IE"); rf.kb_ie = true; rf.set_mem(KBSR, 0x4000); }
     sim.observer.clear();
-    Pair { sim, rf, kb, disp, rec, sources: vec![], extra: vec![] }
+    Pair { sim, rf, kb, disp, rec, sources: vec![], extra: vec![], hold_kb: false, hold_disp: false }
 }
 
 impl Pair {
@@ -146,8 +149,16 @@ pub fn step_compare(p: &mut Pair, check_observer: bool) -> Result<StepInfo, (Str
     let reqs = p.next_requests();
     let pre_pc = p.rf.pc; let pre_psr = p.rf.psr;
     let before_cnt = p.sim.instructions_run;
+    p.rf.kb_locked = p.hold_kb; p.rf.disp_locked = p.hold_disp;
     let out = p.rf.step(&reqs);
-    let res = match catch(|| p.sim.step_in()) { Ok(r) => r, Err(m) => return Err((format!("panic:{}", panic_site(&m)), format!("step_in panicked at pc=x{pre_pc:04X}: {m}"))) };
+    p.rf.kb_locked = false; p.rf.disp_locked = false;
+    let stepped = {
+        let (kbuf, dbuf) = (p.kb.get_buffer().clone(), p.disp.get_buffer().clone());
+        let _gk = if p.hold_kb { Some(kbuf.write().unwrap()) } else { None };
+        let _gd = if p.hold_disp { Some(dbuf.write().unwrap()) } else { None };
+        catch(|| p.sim.step_in())
+    };
+    let res = match stepped { Ok(r) => r, Err(m) => return Err((format!("panic:{}", panic_site(&m)), format!("step_in panicked at pc=x{pre_pc:04X}: {m}"))) };
     // an interrupt taken consumes one pending request of the winning source
     let mut taken = None;
     if out == Outcome::Interrupted {
